@@ -201,6 +201,15 @@ func main() {
 	os.Exit(code)
 }
 
+// outDir is where evidence and replay files go: /verif, or $VERIF_OUT (used when a check is pointed at a
+// scratch copy of the repository, e.g. by the mutant self-test, so that the committed evidence is not overwritten).
+func outDir() string {
+	if v := os.Getenv("VERIF_OUT"); v != "" {
+		return v
+	}
+	return verifDir
+}
+
 func goEnv() []string {
 	env := os.Environ()
 	env = append(env, "GOFLAGS=-mod=mod", "GOPROXY=off", "GOSUMDB=off", "GOTOOLCHAIN=local", "GONOSUMDB=*")
@@ -664,7 +673,7 @@ func readInflight(path string) json.RawMessage {
 }
 
 func writeReplay(u *result, cs json.RawMessage, v *violation) string {
-	dir := filepath.Join(verifDir, "replays")
+	dir := filepath.Join(outDir(), "replays")
 	_ = os.MkdirAll(dir, 0o755)
 	path := filepath.Join(dir, fmt.Sprintf("%s-seed%d-run%d.json", prop, baseSeed, u.Idx))
 	doc := map[string]interface{}{
@@ -833,7 +842,7 @@ func writeEvidence(agg *aggregate, m *meta, start time.Time, known map[string]in
 		"technique":   m.Technique,
 	}
 	b, _ := json.MarshalIndent(doc, "", " ")
-	dir := filepath.Join(verifDir, "evidence")
+	dir := filepath.Join(outDir(), "evidence")
 	_ = os.MkdirAll(dir, 0o755)
 	if err := os.WriteFile(filepath.Join(dir, prop+".json"), b, 0o644); err != nil {
 		fmt.Println("cannot write evidence:", err)
